@@ -99,6 +99,8 @@ pub struct Router {
     // `Router` needs to be `Clone + Send`, and we need to `task.await` in its `shutdown()` impl.
     task: Arc<Mutex<Option<AbortOnDropHandle<()>>>>,
     cancel_token: CancellationToken,
+    /// Cancelled once the main run task has finished (or was aborted).
+    done_token: CancellationToken,
 }
 
 /// Builder for creating a [`Router`] for accepting protocols.
@@ -427,10 +429,6 @@ impl Router {
     /// If some [`ProtocolHandler`] panicked in the accept loop, this will propagate
     /// that panic into the result here.
     pub async fn shutdown(&self) -> Result<(), n0_future::task::JoinError> {
-        if self.is_shutdown() {
-            return Ok(());
-        }
-
         // Trigger shutdown of the main run task by activating the cancel token.
         self.cancel_token.cancel();
 
@@ -440,6 +438,9 @@ impl Router {
         let task = self.task.lock().expect("poisoned").take();
         if let Some(task) = task {
             task.await?;
+        } else {
+            // Another call took the task handle: wait until the run task has finished as well.
+            self.done_token.cancelled().await;
         }
 
         Ok(())
@@ -516,8 +517,12 @@ impl RouterBuilder {
         // Our own shutdown works with a cancellation token.
         let cancel = CancellationToken::new();
         let cancel_token = cancel.clone();
+        let done = CancellationToken::new();
+        let done_token = done.clone();
 
         let run_loop_fut = async move {
+            // Signals concurrent `Router::shutdown` calls once this future has finished.
+            let _done_guard = done_token.drop_guard();
             // Make sure to cancel the token, if this future ever exits.
             let _cancel_guard = cancel_token.clone().drop_guard();
             // We create a separate cancellation token to stop any `ProtocolHandler::accept` futures
@@ -618,6 +623,7 @@ impl RouterBuilder {
             endpoint: self.endpoint,
             task: Arc::new(Mutex::new(Some(task))),
             cancel_token: cancel,
+            done_token: done,
         }
     }
 }
